@@ -464,8 +464,8 @@ macro_rules! impl_cache_processor {
 
                         Ok(())
                     }
-                    $item::Wait(wg) => {
-                        wg.done();
+                    $item::Wait(signal) => {
+                        drop(signal);
                         Ok(())
                     }
                 }
@@ -739,8 +739,8 @@ macro_rules! impl_cache_cleaner {
                         expiration,
                     )),
                     $item::Delete { .. } | $item::Update { .. } => {}
-                    $item::Wait(wg) => {
-                        let _ = wg.done();
+                    $item::Wait(signal) => {
+                        drop(signal);
                     }
                 }
             }
